@@ -24,5 +24,5 @@ Definition tags_after (tags0 : str -> option node) (ref : str) (st : state) : st
   fun r => if str_eqb r ref then match tag st with Some n => Some n | None => tags0 r end else tags0 r.
 
 (* configuration of the copyGraph run that Copy starts *)
-Definition copy_cfg (dflt opt : Z) (refpusher : bool) (root : node) (cached0 : list node) : cfg :=
-  mkCfg (eff_K dflt opt) (if refpusher then MRefPush else MTagger) root cached0.
+Definition copy_cfg (dflt opt : Z) (refpusher mount : bool) (root : node) (cached0 : list node) : cfg :=
+  mkCfg (eff_K dflt opt) (if refpusher then MRefPush else MTagger) root mount cached0.
